@@ -70,6 +70,16 @@ impl<R: BufRead> Read for PacketBodyReader<R> {
 
 impl<R: BufRead> PacketBodyReader<R> {
     pub fn new(packet_header: PacketHeader, source: R) -> io::Result<Self> {
+        crate::verif_event!(
+            "body.new",
+            match packet_header.packet_length() {
+                PacketLength::Fixed(_) => 0,
+                PacketLength::Indeterminate => 1,
+                PacketLength::Partial(_) => 2,
+            },
+            packet_header.packet_length().maybe_len().unwrap_or(0),
+            u8::from(packet_header.tag())
+        );
         let source = match packet_header.packet_length() {
             PacketLength::Fixed(len) => {
                 debug!("fixed packet {len}");
